@@ -60,7 +60,7 @@ func runOne(w *sched.W, op cm.OpDef, kd kind, maxChunk, point int, b sched.Bound
 	}
 	classes := []string{}
 	if b.Pre > 0 {
-		classes = []string{"chan.read", "chan.Read", "nc."}
+		classes = []string{"chan.read", "chan.Read", "nc.", "spawn."}
 	}
 	cfg := cm.Cfg(classes...)
 	cfg.Tick = u
@@ -113,7 +113,7 @@ func runOne(w *sched.W, op cm.OpDef, kd kind, maxChunk, point int, b sched.Bound
 			if kd.wr && o.err == nil {
 				return
 			}
-			if !kd.wr && point >= f.Lmin && o.err == nil {
+			if !kd.wr && (point >= f.Lmin || op.Kind == "open-plain") && o.err == nil {
 				// the loss happens while idle, after the complete exchange: give the reader time to see it
 				time.Sleep(4 * u)
 			}
@@ -174,7 +174,7 @@ func judge(e *sched.Env, op cm.OpDef, kd kind, point int, o *outcome, hung strin
 		faultAt = o.wfTime
 	}
 	if o.err == nil {
-		complete := point >= f.Lmin
+		complete := point >= f.Lmin || op.Kind == "open-plain" // a plain Open reads nothing: it may succeed on a dead stream
 		if kd.wr {
 			complete = point >= f.W
 		}
@@ -245,7 +245,7 @@ func scenario(op cm.OpDef, kd kind, maxChunk int, b sched.Bounds, shard, shards 
 // code path); thorough does all of them
 var quickDev = map[string]bool{
 	"generic.GetPrompt": true, "generic.SendCommand": true, "generic.SendWithCallbacks": true, "network.SendCommand-implicit-priv": true,
-	"telnet.Open": true, "ssh.Open": true, "netconf.Open/1.1": true, "netconf.Get/1.1": true, "netconf.EditConfig/1.0": true,
+	"generic.Open": true, "telnet.Open": true, "ssh.Open": true, "netconf.Open/1.1": true, "netconf.Get/1.1": true, "netconf.EditConfig/1.0": true,
 }
 
 func scenarios(tier string) []sched.Scenario {
@@ -265,8 +265,14 @@ func scenarios(tier string) []sched.Scenario {
 			} else if !quickDev[op.Name] {
 				continue
 			}
+			bd := sched.Bounds{Pre: pre, Env: 1, Total: pre}
+			if op.Kind == "open-plain" {
+				// tiny operation: the read loop may see the loss and exit before Open returns (thread switch at the
+				// spawn point + delivery of the loss while the opener is runnable)
+				bd = sched.Bounds{Pre: 2, Env: 2, Total: 3}
+			}
 			for s := 0; s < sh; s++ {
-				out = append(out, scenario(op, kd, 0, sched.Bounds{Pre: pre, Env: 1, Total: pre}, s, sh))
+				out = append(out, scenario(op, kd, 0, bd, s, sh))
 			}
 		}
 	}
